@@ -160,7 +160,10 @@ func (c *conn) handleSubscribe(in *inEnvelope) error {
 
 	initial := true
 	c.subscriptionLogger.Subscribe(c.ctx, id, tags)
-	c.subscriptions[id] = reactive.NewRerunner(c.ctx, func(ctx context.Context) (interface{}, error) {
+	// runner is assigned below while c.mu is held and only read by
+	// closeSubscriptionOf, which also holds c.mu.
+	var runner *reactive.Rerunner
+	runner = reactive.NewRerunner(c.ctx, func(ctx context.Context) (interface{}, error) {
 		ctx = c.makeCtx(ctx)
 		ctx = batch.WithBatching(ctx)
 
@@ -194,7 +197,7 @@ func (c *conn) handleSubscribe(in *inEnvelope) error {
 
 		if err != nil {
 			if ErrorCause(err) == context.Canceled {
-				go c.closeSubscription(id)
+				go c.closeSubscriptionOf(id, &runner)
 				return nil, err
 			}
 
@@ -220,7 +223,7 @@ func (c *conn) handleSubscribe(in *inEnvelope) error {
 				Message:  SanitizeError(err),
 				Metadata: output.Metadata,
 			})
-			go c.closeSubscription(id)
+			go c.closeSubscriptionOf(id, &runner)
 
 			if _, ok := err.(SanitizedError); !ok {
 				c.logger.Error(ctx, err, tags)
@@ -251,6 +254,7 @@ func (c *conn) handleSubscribe(in *inEnvelope) error {
 		initial = false
 		return nil, nil
 	}, c.minRerunIntervalFunc(c.ctx, query), c.alwaysSpawnGoroutineFunc(c.ctx, query))
+	c.subscriptions[id] = runner
 
 	return nil
 }
@@ -291,7 +295,9 @@ func (c *conn) handleMutate(in *inEnvelope) error {
 
 	initial := true
 	e := c.executor
-	c.subscriptions[id] = reactive.NewRerunner(c.ctx, func(ctx context.Context) (interface{}, error) {
+	// See handleSubscribe for how runner is synchronized.
+	var runner *reactive.Rerunner
+	runner = reactive.NewRerunner(c.ctx, func(ctx context.Context) (interface{}, error) {
 		// Serialize all mutates for a given connection.
 		c.mutateMu.Lock()
 		defer c.mutateMu.Unlock()
@@ -334,7 +340,7 @@ func (c *conn) handleMutate(in *inEnvelope) error {
 				Metadata: output.Metadata,
 			})
 
-			go c.closeSubscription(id)
+			go c.closeSubscriptionOf(id, &runner)
 
 			if ErrorCause(err) == context.Canceled {
 				return nil, err
@@ -356,9 +362,10 @@ func (c *conn) handleMutate(in *inEnvelope) error {
 		go c.rerunSubscriptionsImmediately()
 
 		initial = false
-		go c.closeSubscription(id)
+		go c.closeSubscriptionOf(id, &runner)
 		return nil, errors.New("stop")
 	}, c.minRerunIntervalFunc(c.ctx, query), c.alwaysSpawnGoroutineFunc(c.ctx, query))
+	c.subscriptions[id] = runner
 
 	return nil
 }
@@ -378,6 +385,21 @@ func (c *conn) closeSubscription(id string) {
 
 	if runner, ok := c.subscriptions[id]; ok {
 		runner.Stop()
+		delete(c.subscriptions, id)
+		c.subscriptionLogger.Unsubscribe(c.ctx, id)
+	}
+}
+
+// closeSubscriptionOf closes the subscription with the given id if it is still
+// the one served by *runner. A subscription that ends on its own does so from
+// a goroutine that may run late; by then the client may have unsubscribed and
+// subscribed again with the same id, and that new subscription must survive.
+func (c *conn) closeSubscriptionOf(id string, runner **reactive.Rerunner) {
+	c.mu.Lock()
+	defer c.mu.Unlock()
+
+	if current, ok := c.subscriptions[id]; ok && current == *runner {
+		current.Stop()
 		delete(c.subscriptions, id)
 		c.subscriptionLogger.Unsubscribe(c.ctx, id)
 	}
